@@ -113,6 +113,24 @@ def _mid(a0, a1, t):
     return a0 + t * (a1 - a0)
 
 
+def _arc_in_pieces(c, span, pr, V, ents, base):
+    """An arc closed by its chord, the arc cut into 1-3 sub-arcs at equal angles, each with its middle control point where the
+    presentation puts it. The exact length of the curve does not depend on the cutting; its discretisation (so its area) does."""
+    n = int(pr.get("arc_pieces", 1))
+    t = pr.get("arc_mid", 0.5)
+    cuts = np.linspace(span[0], span[1], n + 1)
+    angs = []
+    for a, b in zip(cuts[:-1], cuts[1:]):
+        angs += [a, _mid(a, b, t)]
+    angs.append(cuts[-1])
+    angs = np.array(angs)
+    V.extend((c["c"] + c["r"] * np.column_stack([np.cos(angs), np.sin(angs)])).tolist())
+    for i in range(n):
+        ents.append(("Arc", [base + 2 * i, base + 2 * i + 1, base + 2 * i + 2]))
+    ents.append(("Line", [base + 2 * n, base]))
+    return base
+
+
 def present(curves, pr):
     """One presentation: vertices (n,2) and entity descriptions, from a JSON presentation recipe."""
     from trimesh.path.entities import Arc, Line
@@ -148,14 +166,10 @@ def present(curves, pr):
         elif c["kind"] == "dshape":
             # an arc whose end points are joined directly by a two-point chord: a loop of exactly two entities
             # span 3.23 rad: not a multiple of the 0.08 rad segment angle (no knife-edge segment count); the middle control point may sit anywhere on the arc
-            ang = np.array([DSHAPE[0], _mid(DSHAPE[0], DSHAPE[1], pr.get("arc_mid", 0.5)), DSHAPE[1]])
-            V.extend((c["c"] + c["r"] * np.column_stack([np.cos(ang), np.sin(ang)])).tolist())
-            ents += [("Arc", [base, base + 1, base + 2]), ("Line", [base + 2, base])]
+            base = _arc_in_pieces(c, DSHAPE, pr, V, ents, base)
         elif c["kind"] == "keyhole":
             # more than 180 degrees: with an off-centre control point one of the two sections alone exceeds 180 degrees
-            ang = np.array([KEYHOLE[0], _mid(KEYHOLE[0], KEYHOLE[1], pr.get("arc_mid", 0.5)), KEYHOLE[1]])
-            V.extend((c["c"] + c["r"] * np.column_stack([np.cos(ang), np.sin(ang)])).tolist())
-            ents += [("Arc", [base, base + 1, base + 2]), ("Line", [base + 2, base])]
+            base = _arc_in_pieces(c, KEYHOLE, pr, V, ents, base)
         elif c["kind"] == "lens":
             # a full circle made of exactly two arcs sharing both end points
             t = pr.get("arc_mid", 0.5)
@@ -301,7 +315,7 @@ class C14(World):
             dup = rng.random() < 0.25
             ops.append({"op": "present", "salt": rng.randrange(2**31), "max_split": rng.choice([1, 2, 3, 5]), "permute": rng.random() < 0.85, "reverse_p": rng.choice([0.0, 0.5, 1.0]),
                         "permute_vertices": rng.random() < 0.5, "dup_vertices": dup, "process": rng.random() < (0.6 if dup else 0.5), "closed_arc": rng.random() < 0.3, "rs": rng.randrange(2**31),
-                        "arc_mid": rng.choice([0.5, 0.5, 0.5, 0.05, 0.15, 0.3, 0.85, 0.95]), "via": "dxf_bulge" if rng.random() < 0.15 else "entities"})
+                        "arc_mid": rng.choice([0.5, 0.5, 0.5, 0.05, 0.15, 0.3, 0.85, 0.95]), "arc_pieces": rng.choice([1, 1, 2, 3]), "via": "dxf_bulge" if rng.random() < 0.15 else "entities"})
             for _ in range(cfg["n_ops"]):
                 k = pick(rng, cfg["weights"])
                 op = {"op": k, "rs": rng.randrange(2**31), "i": rng.randrange(1000)}
@@ -378,6 +392,7 @@ class C14(World):
                         # made (and memoised) but judged only after merge_vertices / process has joined it
                         state["unmerged"] = bool(op["dup_vertices"]) and not bool(op["process"])
                     M_total = np.eye(3)
+                    state["pieces"] = 1 if op.get("via") == "dxf_bulge" else int(op.get("arc_pieces", 1))
                     state["pclass"] = ("dxfbulge-" if op.get("via") == "dxf_bulge" else "") + f"mid{op.get('arc_mid', 0.5)}-split{op['max_split']}-perm{int(op['permute'])}-rev{op['reverse_p']}-dup{int(op['dup_vertices'])}-proc{int(op['process'])}"
                     state["last"] = "present"
                     state["scale_len"], state["scale_area"] = 1.0, 1.0
@@ -567,7 +582,7 @@ class C14(World):
             for n, power in (("area", 2), ("length", 1)):
                 if n in got:
                     base = got[n] / (sfac**power)
-                    key = n
+                    key = n if n == "length" else (n, state.get("pieces", 1))
                     if key not in first:
                         first[key] = base
                     # 1e-6: an arc re-discretised from its three transformed control points goes through arc_center again,
